@@ -135,44 +135,63 @@ func (c *Ctx) prefixFree(tk *TreeKind) prefixFreeInfo {
 		return prefixFreeInfo{reason: "codec Transform has no return"}
 	}
 	external := false
-	for _, r := range rets {
-		if len(r.Results) != 2 {
-			return prefixFreeInfo{reason: "Transform return not in the two-result form"}
+	// derives: the expression is computed from the result of an external call – directly, through
+	// a variable assigned from one, or through a helper of the library whose returns are
+	// (cok.sortKey(b) wrapping collate.Collator.Key)
+	var derives func(u *FuncUnit, e ast.Expr, depth int) bool
+	derives = func(u *FuncUnit, e ast.Expr, depth int) bool {
+		if depth > 3 || e == nil {
+			return false
 		}
-		ast.Inspect(r.Results[1], func(n ast.Node) bool {
-			if call, ok := n.(*ast.CallExpr); ok {
-				if f := c.m.staticCallee(call); f != nil && f.Pkg() != nil && f.Pkg() != c.m.Pkg {
-					if !strings.HasPrefix(c.m.calleeName(call), "bytes.") {
-						external = true
+		found := false
+		ast.Inspect(e, func(n ast.Node) bool {
+			call, ok := n.(*ast.CallExpr)
+			if !ok || found {
+				return !found
+			}
+			if f := c.m.staticCallee(call); f != nil && f.Pkg() != nil && f.Pkg() != c.m.Pkg {
+				name := c.m.calleeName(call)
+				if strings.Contains(name, "collate") || (depth == 0 && !strings.HasPrefix(name, "bytes.")) {
+					found = true
+				}
+				return true
+			}
+			if cu := c.m.calleeUnit(call); cu != nil && cu != u && cu.Body != nil && cu.Lit == nil {
+				if rets, all := returnExprs(cu); all {
+					for _, r := range rets {
+						if derives(cu, r, depth+1) {
+							found = true
+						}
 					}
 				}
 			}
 			return true
 		})
-		// a variable assigned from an external call also counts
-		if v := identVar(info, r.Results[1]); v != nil {
-			ast.Inspect(tu.Body, func(n ast.Node) bool {
+		if found {
+			return true
+		}
+		if v := identVar(info, e); v != nil && u.Body != nil {
+			ast.Inspect(u.Body, func(n ast.Node) bool {
 				as, ok := n.(*ast.AssignStmt)
-				if !ok || len(as.Lhs) != len(as.Rhs) {
-					return true
+				if !ok || len(as.Lhs) != len(as.Rhs) || found {
+					return !found
 				}
 				for i, l := range as.Lhs {
-					if identVar(info, l) == v {
-						ast.Inspect(as.Rhs[i], func(m ast.Node) bool {
-							if call, ok := m.(*ast.CallExpr); ok {
-								if f := c.m.staticCallee(call); f != nil && f.Pkg() != nil && f.Pkg() != c.m.Pkg {
-									name := c.m.calleeName(call)
-									if strings.Contains(name, "collate") {
-										external = true
-									}
-								}
-							}
-							return true
-						})
+					if identVar(info, l) == v && derives(u, as.Rhs[i], depth+1) {
+						found = true
 					}
 				}
 				return true
 			})
+		}
+		return found
+	}
+	for _, r := range rets {
+		if len(r.Results) != 2 {
+			return prefixFreeInfo{reason: "Transform return not in the two-result form"}
+		}
+		if derives(tu, r.Results[1], 0) {
+			external = true
 		}
 	}
 	if external {
